@@ -81,6 +81,9 @@ type ardopSim struct {
 	rdy       bool     // emit RDY after each command reply (spec section 5)
 	preAck    []string // asynchronous responses emitted before the answer to each data frame
 	chop      int      // >0: write TNC->host bytes in pieces of this size (TCP segmentation)
+	// earlyBuffer: report the current queue (BUFFER n, for earlier data) as soon as a data frame's header has
+	// been seen, before its body is taken off the link
+	earlyBuffer bool
 }
 
 func newArdopSim(tcp bool, ctrl, data io.ReadWriter) *ardopSim {
@@ -211,6 +214,12 @@ func (s *ardopSim) readSerial() {
 				return
 			}
 			n := int(cnt[0])<<8 | int(cnt[1])
+			s.mu.Lock()
+			early, q := s.earlyBuffer, s.queued
+			s.mu.Unlock()
+			if early {
+				s.sendCtrl("BUFFER " + strconv.Itoa(q))
+			}
 			body := make([]byte, n)
 			if _, err := io.ReadFull(s.ctrl, body); err != nil {
 				s.protoErr("data frame shorter than its count %d", n)
